@@ -118,7 +118,7 @@ func main() {
 	r.Rule = "each case is one session call: (call msize smsize Method args script) with msize the negotiated connection msize, " +
 		"smsize what S.Version() reports, boundary-dense arguments (fids 0/NOFID, offsets 0/2^32/2^63-1/-2^63/-1, counts and data sizes " +
 		"around and beyond msize-11 / msize-23, every Dir field incl. sub-second and out-of-range times, 0..17 walk names, empty/long/non-UTF8 names) " +
-		"and a scripted result or error; issued in sequences and in concurrent sets over an unbounded-buffer connection and in sequences over net.Pipe; " +
+		"and a scripted result or error; issued in sequences and in concurrent sets over an unbounded-buffer connection and over net.Pipe; " +
 		"(reply Method args msg) cases feed the client arbitrary reply messages through a custom Handler; (flow N observed) cases run N concurrent callers " +
 		"over net.Pipe. A case is non-trivial when an argument or result is clipped, an error crosses the wire, a request is refused before sending, " +
 		"or it ran concurrently with others; distinct = distinct canonical case text."
@@ -132,10 +132,10 @@ func main() {
 		time.Duration(r.N(300, 1500))*time.Second, extra)
 	childVerdict(r, res, "buffered-conn")
 
-	// (2) functional campaign over net.Pipe, sequences only (one call in flight at a time)
-	res = runChild(r, "func", map[string]string{"C09_SEED": seed + "7", "C09_CONN": "pipe", "C09_SEQ": strconv.Itoa(r.N(6, 120)), "C09_CONC": "0"},
+	// (2) functional campaign over net.Pipe (buffers nothing): sequences and concurrent sets
+	res = runChild(r, "func", map[string]string{"C09_SEED": seed + "7", "C09_CONN": "pipe", "C09_SEQ": strconv.Itoa(r.N(6, 120)), "C09_CONC": strconv.Itoa(r.N(6, 120))},
 		time.Duration(r.N(300, 1500))*time.Second, extra)
-	childVerdict(r, res, "net.Pipe-sequential")
+	childVerdict(r, res, "net.Pipe-functional")
 
 	// (3) arbitrary reply messages through a custom Handler
 	res = runChild(r, "reply", map[string]string{"C09_SEED": seed + "3", "C09_N": strconv.Itoa(r.N(120, 3000))},
